@@ -243,7 +243,7 @@ func runProp(p *core.Prog, id, tier string, seed int, outDir string, kf []knownF
 		"seed":        seed,
 		"level":       "other",
 		"coverage": map[string]any{
-			"explanation":         pack.Explanation,
+			"explanation":         pack.Explanation + rules.Addendum(id),
 			"obligations":         total,
 			"discharged":          held + len(knownHit)*0,
 			"evaluations":         total,
